@@ -428,6 +428,18 @@ int scan_from_with(var input, int pos, const char* fmt, var args) {
           long tmp = 0;
           err = format_from(input, pos, fmt_buf, &tmp, &off);
           val = sgn ? (int64_t)tmp : (int64_t)(unsigned long)tmp;
+        } else if (strchr(fmt_buf, 'j')) {
+          intmax_t tmp = 0;
+          err = format_from(input, pos, fmt_buf, &tmp, &off);
+          val = sgn ? (int64_t)tmp : (int64_t)(uintmax_t)tmp;
+        } else if (strchr(fmt_buf, 'z')) {
+          size_t tmp = 0;
+          err = format_from(input, pos, fmt_buf, &tmp, &off);
+          val = (int64_t)tmp;
+        } else if (strchr(fmt_buf, 't')) {
+          ptrdiff_t tmp = 0;
+          err = format_from(input, pos, fmt_buf, &tmp, &off);
+          val = (int64_t)tmp;
         } else if (strstr(fmt_buf, "hh")) {
           signed char tmp = 0;
           err = format_from(input, pos, fmt_buf, &tmp, &off);
